@@ -114,3 +114,100 @@ def simple_set(rng, case_tag, nlang=1, ncap=None, below_h=24, grid=1, sorted_=Tr
             caps.append({'start': a, 'end': b, 'nodes': nodes, 'style': None, 'layout': None})
         spec['langs'].append({'lang': lang, 'layout': None, 'captions': caps})
     return spec
+
+
+# ------------------------------------------------------------------------------- rich sets (styles, layouts)
+
+CLASS_NAMES = ['p', 'default', 'hl', 'speaker', 'bottom', 'r0', 'r1', 'r12', 'a&b', 'x"y', "q'z", '<z>',
+               'c 1', 'Ünï', 'encc', 'span', 'sync']
+STYLE_VALUES = {
+    'color': ['white', 'red', '#ff0000', 'rgb(1,2,3)', 'a&b', 'x"y', '<c>'],
+    'font-family': ['monospace', 'Arial', '"Times New Roman", serif', 'A & B', "it's", '<ff>'],
+    'font-size': ['1c', '12px', '100%', '1&2'],
+    'text-align': ['left', 'center', 'right', 'start', 'end'],
+    'display-align': ['before', 'center', 'after'],
+}
+
+
+def rand_style(rng, classes=(), p_meta=0.3, allow_class=True):
+    st = {}
+    for key in rng.sample(sorted(STYLE_VALUES), rng.randrange(0, 4)):
+        vals = STYLE_VALUES[key]
+        st[key] = rng.choice(vals if rng.random() < p_meta + 0.3 else vals[:3])
+    for flag in ('italics', 'bold', 'underline'):
+        if rng.random() < 0.2:
+            st[flag] = True
+    if allow_class and classes and rng.random() < 0.4:
+        st['class'] = rng.choice(list(classes))
+    return st
+
+
+def rich_set(rng, tag, layout_fn=None, nlang=None, levels=('set', 'lang', 'caption', 'node', 'span'),
+             weird_names=True, p_layout=0.35, abs_units=False, max_caps=4):
+    """A caption set with styles, class references, balanced flat style spans and layouts at the
+    requested levels.  layout_fn(rng) -> layout spec."""
+    from vf.gen import geom
+    layout_fn = layout_fn or (lambda r: geom.pct_layout(r))
+    names = rng.sample(CLASS_NAMES if weird_names else CLASS_NAMES[:8], rng.randrange(0, 4))
+    styles = {n: rand_style(rng, (), allow_class=False) for n in names}
+    if names and rng.random() < 0.3:
+        styles[names[0]]['class'] = rng.choice(names)
+    nlang = nlang or rng.choice([1, 1, 2, 3])
+    lang_pool = LANGS + (['en&"<', "fr'>", 'x y'] if weird_names else [])
+    langs = rng.sample(lang_pool, nlang)
+
+    def maybe(level):
+        if level in levels and rng.random() < p_layout:
+            return layout_fn(rng)
+        return None
+
+    spec = {'langs': [], 'styles': styles if (styles or rng.random() < 0.5) else None, 'layout': maybe('set')}
+    for li, lang in enumerate(langs):
+        n = rng.randrange(1, max_caps + 1)
+        tl = timeline(rng, n, below_h=24, grid=1000, sorted_=True, allow_equal_runs=True)
+        caps = []
+        for ci, (a, b) in enumerate(tl):
+            nodes, _ = text_nodes(rng, f'{tag}.{li}.{ci}', p_meta=0.2, p_uni=0.1)
+            # node-level layouts on bare text nodes
+            if 'node' in levels and rng.random() < p_layout / 2:
+                lay = layout_fn(rng)
+                for nd in nodes:
+                    if rng.random() < 0.7:
+                        nd.append(lay) if nd[0] == 't' else nd.extend([lay] if nd[0] == 'b' else [])
+            # balanced flat spans
+            k = rng.choice([0, 0, 1, 1, 2])
+            pos = sorted(rng.randrange(0, len(nodes) + 1) for _ in range(2 * k))
+            out = []
+            spans = [(pos[2 * i], pos[2 * i + 1]) for i in range(k)]
+            opens = {}
+            closes = {}
+            for s_, e_ in spans:
+                content = rand_style(rng, names)
+                lay = layout_fn(rng) if ('span' in levels and rng.random() < p_layout) else None
+                opens.setdefault(s_, []).append((content, lay))
+                closes.setdefault(e_, []).append((content, lay))
+            pending = []
+            for i in range(len(nodes) + 1):
+                for content, lay in closes.get(i, []):
+                    if (content, lay) in pending:
+                        pending.remove((content, lay))
+                        out.append(['s', False, content] + ([lay] if lay else []))
+                for content, lay in opens.get(i, []):
+                    # flat: close whatever is open first
+                    for c2, l2 in list(pending):
+                        pending.remove((c2, l2))
+                        out.append(['s', False, c2] + ([l2] if l2 else []))
+                    pending.append((content, lay))
+                    out.append(['s', True, content] + ([lay] if lay else []))
+                if i < len(nodes):
+                    nd = nodes[i]
+                    if pending and pending[-1][1] is not None and nd[0] in ('t', 'b') and len(nd) == (2 if nd[0] == 't' else 1):
+                        nd = nd + [pending[-1][1]]      # nodes inside a positioned span carry its layout
+                    out.append(nd)
+            for c2, l2 in pending:
+                out.append(['s', False, c2] + ([l2] if l2 else []))
+            cstyle = rng.choice([None, {}, {'class': rng.choice(names)} if names else None,
+                                 rand_style(rng, names)])
+            caps.append({'start': a, 'end': b, 'nodes': out, 'style': cstyle, 'layout': maybe('caption')})
+        spec['langs'].append({'lang': lang, 'layout': maybe('lang'), 'captions': caps})
+    return spec
